@@ -24,7 +24,7 @@ pub struct Violation {
 pub fn conflict(case: &CaseSpec, a: usize, b: usize) -> bool {
     let (fa, fb) = (&case.graph.fns[a], &case.graph.fns[b]);
     for k in 0..crate::spec::N_TYPES {
-        let bit = 1u8 << k;
+        let bit = 1u16 << k;
         let a_uses = (fa.reads | fa.writes) & bit != 0;
         let b_uses = (fb.reads | fb.writes) & bit != 0;
         let one_writes = (fa.writes | fb.writes) & bit != 0;
